@@ -281,6 +281,15 @@ class Oracle:
             if not _isinstance_promoting(obj, typ):
                 return False
             args = v.args
+            if issubclass(typ, BaseExceptionGroup) and len(args) == 1:
+                # ExceptionGroup[T] / BaseExceptionGroup[T]: every leaf exception of the group is a T
+                def leaves(g):
+                    for e in g.exceptions:
+                        if isinstance(e, BaseExceptionGroup):
+                            yield from leaves(e)
+                        else:
+                            yield e
+                return _and3(self.member(e, args[0]) for e in leaves(obj))
             if isinstance(obj, dict) and len(args) == 2 and issubclass(typ, cabc.Mapping) or (typ is dict and len(args) == 2):
                 return _and3([_and3(self.member(k, args[0]) for k in obj), _and3(self.member(x, args[1]) for x in obj.values())])
             if isinstance(obj, _ELEMENTWISE) and len(args) == 1 and (
